@@ -143,6 +143,44 @@ def _lookup_wrappers(model, sm):
 
 
 def _check_interceptor(ctx, model, sm, name, mem):
+    """the interpretive judge (pv/idjudge.py) for every node class the
+    handler serves, then the structural reading of its paths"""
+    from .. import idjudge
+    from ..rules import child_kinds
+    jwit = []
+    judged = 0
+    try:
+        for n in model.nodes.all():
+            if n.mapper_method != name or n.legacy:
+                continue
+            w_, _ = idjudge.judge_interceptor(model, sm, n, model.inlined(
+                mem.node), child_kinds(n))
+            jwit += w_
+            judged += 1
+    except AnalysisError as e:
+        jwit = None
+        ctx.extra.setdefault("judge_unavailable:interceptors", []).append(
+            f"{name}: {str(e)[:90]}")
+    if jwit is not None and judged:
+        ctx.ob(f"F0/SubstitutionMapper/{name}/interceptor-semantics", not jwit,
+               where(mem),
+               f"SubstitutionMapper.{name} interpreted: a replacement comes back "
+               "as it is and is not substituted again; without one the node is "
+               "traversed like the identity mapper does" if not jwit else
+               f"SubstitutionMapper.{name}: " + "; ".join(jwit[:2]))
+    mark = len(ctx.obs)
+    try:
+        _check_interceptor_structural(ctx, model, sm, name, mem)
+    except AnalysisError:
+        if jwit is None or jwit or not judged:
+            raise
+    if jwit is not None and not jwit and judged:
+        ctx.withdraw_failures_since(
+            mark, "decided by interpreting the handler",
+            f"F/SubstitutionMapper/{name}/")
+
+
+def _check_interceptor_structural(ctx, model, sm, name, mem):
     fn = mem.node
     tag = f"F/SubstitutionMapper/{name}"
     pss = summarize(fn, loop_mode="1")
@@ -292,10 +330,11 @@ def _judge_make_subst_func(model, fn, module):
                          f"{'neither' if not (by_node or by_name) else ''}")
                 try:
                     f = it.call_function(fn, [table], dict(glob))
-                    if not isinstance(f, Closure):
+                    from ..absint import Partial
+                    if not isinstance(f, (Closure, Partial)):
                         wit.append(f"{label}: make_subst_func returns {f!r}")
                         continue
-                    got = it.call_function(f.fn, [node], f.env)
+                    got = it.apply(f, [node])
                 except Raised as r:
                     wit.append(f"{label}: raises at line {r.node.lineno}")
                     continue
